@@ -186,10 +186,9 @@ class Ctx(object):
         c = z._cb(cond)
         if c is not None:
             return c
-        cond = z3.simplify(cond)
-        c = z._cb(cond)
-        if c is not None:
-            return c
+        cond = z.simp(cond)
+        if not z.is_sym(cond):
+            return bool(cond)
         k = cond.get_id()
         if k in self.lits:
             return self.lits[k]
